@@ -34,6 +34,33 @@ type (
 	NamedDur   time.Duration
 )
 
+// Named composite types, and interface types that ask for an Unpack method.
+type (
+	NamedPtr    *Init
+	NamedPtrInt *int
+	NamedSlice  []int
+	NamedMap    map[string]int
+	NamedArr    [2]int
+	NamedIface  interface{}
+	CfgUnpacker interface {
+		Unpack(*ucfg.Config) error
+	}
+	StrUnpacker interface{ Unpack(string) error }
+	AnyUnpacker interface{ Unpack(interface{}) error }
+)
+
+type cfgU struct{ N int }
+
+func (u *cfgU) Unpack(c *ucfg.Config) error { u.N++; return nil }
+
+type strU struct{ S string }
+
+func (u *strU) Unpack(s string) error { u.S = s; return nil }
+
+type anyU struct{ V interface{} }
+
+func (u *anyU) Unpack(v interface{}) error { u.V = v; return nil }
+
 // Init has defaults.
 type Init struct {
 	A int `config:"a"`
@@ -61,6 +88,9 @@ var baseTypes = []reflect.Type{
 	reflect.TypeOf(make(chan int)), reflect.TypeOf(func() {}), reflect.TypeOf(complex64(0)), reflect.TypeOf(int64(0)), reflect.TypeOf(uint64(0)),
 	reflect.TypeOf(NamedBool(false)), reflect.TypeOf(NamedFloat(0)), reflect.TypeOf(NamedUint(0)), reflect.TypeOf(NamedDur(0)),
 	reflect.TypeOf((*ucfg.Initializer)(nil)).Elem(), reflect.TypeOf((*ucfg.Validator)(nil)).Elem(), reflect.TypeOf((*error)(nil)).Elem(),
+	reflect.TypeOf(NamedPtr(nil)), reflect.TypeOf(NamedPtrInt(nil)), reflect.TypeOf(NamedSlice(nil)), reflect.TypeOf(NamedMap(nil)), reflect.TypeOf(NamedArr{}),
+	reflect.TypeOf((*NamedIface)(nil)).Elem(), reflect.TypeOf((*CfgUnpacker)(nil)).Elem(), reflect.TypeOf((*StrUnpacker)(nil)).Elem(), reflect.TypeOf((*AnyUnpacker)(nil)).Elem(),
+	reflect.TypeOf(cfgU{}), reflect.TypeOf(strU{}), reflect.TypeOf(anyU{}),
 }
 
 var keyTypes = []reflect.Type{reflect.TypeOf(""), reflect.TypeOf(""), reflect.TypeOf(KeyS("")), reflect.TypeOf(int(0)), reflect.TypeOf((*interface{})(nil)).Elem()}
@@ -169,6 +199,12 @@ func fill(r *sim.R, v reflect.Value, depth int) {
 		v.Set(m)
 	case reflect.Interface:
 		if v.NumMethod() != 0 {
+			// an implementation, where the harness has one
+			for _, impl := range []interface{}{&cfgU{}, &strU{}, &anyU{}} {
+				if reflect.TypeOf(impl).AssignableTo(v.Type()) {
+					v.Set(reflect.ValueOf(impl))
+				}
+			}
 			return
 		}
 		// an interface holding a value of some generated type (a struct by value, a pointer, a map ...)
